@@ -300,6 +300,51 @@ pub fn oracle_c17(scn: &Scenario, t: &Trace, st: &mut ExploreStats) -> Vec<Viola
             if got_reqs.len() > 1 {
                 st.count("multi_chunk_loads");
             }
+            // with a chunk size that varies during the load (another caller changes the binary
+            // limit, or the server returns short pieces) the expected offsets follow from what the
+            // server actually returned: offset[i+1] = offset[i] + bytes returned for request i
+            let dynamic = !scn.server.chunk_pattern.is_empty() || scn.callers.iter().any(|c| c.ops.iter().any(|o| matches!(o, Op::Raw(l) if l.starts_with("binarylimit"))));
+            let want_reqs = if dynamic {
+                let mut v: Vec<(String, usize)> = Vec::new();
+                let mut off = 0usize;
+                let mut cur: Option<String> = None;
+                for r in &t.server.transcript {
+                    if r.kind != RecKind::Command {
+                        continue;
+                    }
+                    let Ok(req) = tokenize(&r.lines[0]) else { continue };
+                    let name = String::from_utf8_lossy(&req.name).into_owned();
+                    if name != "readpicture" && name != "albumart" {
+                        continue;
+                    }
+                    if cur.as_deref() != Some(name.as_str()) {
+                        cur = Some(name.clone());
+                        off = 0;
+                    }
+                    v.push((name, off));
+                    let reply = &t.s2c[r.reply_start.min(t.s2c.len())..r.reply_end.min(t.s2c.len())];
+                    let d = crate::mpdref::wire::ref_decode(reply);
+                    off += d.responses.first().and_then(|x| x.frames.first()).and_then(|f| f.binary.as_ref()).map(|b| b.len()).unwrap_or(0);
+                }
+                // the names and the number of requests must still be what the static expectation
+                // says up to chunking: same command sequence without repetitions
+                let dedup = |v: &Vec<(String, usize)>| {
+                    let mut o: Vec<String> = Vec::new();
+                    for (n, _) in v {
+                        if o.last() != Some(n) {
+                            o.push(n.clone());
+                        }
+                    }
+                    o
+                };
+                if dedup(&v) != dedup(&want_reqs) {
+                    want_reqs.clone()
+                } else {
+                    v
+                }
+            } else {
+                want_reqs.clone()
+            };
             if got_reqs != want_reqs {
                 let sig = if got_reqs.iter().map(|r| &r.0).collect::<Vec<_>>() != want_reqs.iter().map(|r| &r.0).collect::<Vec<_>>() { "C17/wrong-commands-or-fallback" } else { "C17/wrong-offsets" };
                 out.push(Violation::new(sig, format!("requests {:?}, expected {:?} (limit {}, choices {:?})", &got_reqs[..got_reqs.len().min(12)], &want_reqs[..want_reqs.len().min(12)], scn.server.binary_limit, t.choice_names()), Value::Null));
@@ -369,6 +414,14 @@ fn c17_grid(tier: Tier) -> Vec<Scenario> {
     }
     v.push(c17_scenario("C17-embedded-size10000-limit5000", PicSource::Data(picture(10000), Some("image/jpeg".into())), PicSource::Empty, 5000, false));
     v.push(c17_scenario("C17-cover-size20000-limit8192", PicSource::Empty, PicSource::Data(picture(20000), None), 8192, false));
+    for (size, limit, pat) in [(10usize, 4usize, vec![4usize, 1, 2]), (7, 3, vec![1]), (20, 8, vec![8, 8, 3, 1]), (13, 5, vec![5, 4, 3, 2, 1])] {
+        let mut s = c17_scenario(&format!("C17-embedded-size{size}-limit{limit}-short-pieces"), PicSource::Data(picture(size), Some("image/png".into())), PicSource::Empty, limit, false);
+        s.server.chunk_pattern = pat.clone();
+        v.push(s);
+        let mut s = c17_scenario(&format!("C17-cover-size{size}-limit{limit}-short-pieces"), PicSource::Empty, PicSource::Data(picture(size), None), limit, false);
+        s.server.chunk_pattern = pat;
+        v.push(s);
+    }
     v.push(c17_scenario("C17-neither", PicSource::Empty, PicSource::Empty, 8192, false));
     v.push(c17_scenario("C17-neither-readpicture-unknown", PicSource::Ack(5), PicSource::Empty, 8192, false));
     // every server error code of MPD's enum, on either command
@@ -381,7 +434,13 @@ fn c17_grid(tier: Tier) -> Vec<Scenario> {
 }
 
 fn c17_explore_scenarios() -> Vec<Scenario> {
+    let mut limit_change = c17_scenario("C17-explore-embedded-size11-limit4-other-caller-lowers-limit", PicSource::Data(picture(11), Some("image/png".into())), PicSource::Empty, 4, true);
+    limit_change.callers[1] = CallerProg { ops: vec![Op::Raw("binarylimit 2".into()), Op::Raw("binarylimit 5".into())], pipeline: false };
+    let mut short = c17_scenario("C17-explore-cover-size9-server-returns-short-pieces", PicSource::Ack(5), PicSource::Data(picture(9), None), 4, true);
+    short.server.chunk_pattern = vec![4, 1, 3, 2];
     vec![
+        limit_change,
+        short,
         c17_scenario("C17-explore-embedded-size7-limit3", PicSource::Data(picture(7), Some("image/png".into())), PicSource::Empty, 3, true),
         c17_scenario("C17-explore-cover-size5-limit2", PicSource::Ack(5), PicSource::Data(picture(5), None), 2, true),
     ]
